@@ -370,11 +370,72 @@ Proof.
   - rewrite E. field. lra.
 Qed.
 
+(* under the premises the clamp of fix_2.diff is the identity *)
+Lemma clampd_id : forall alpha d, d <= alpha -> clampd alpha d = d.
+Proof.
+  intros alpha d H. unfold clampd. destruct (Qlt_bool alpha d) eqn:E; [|reflexivity].
+  apply Qlt_bool_iff in E. lra.
+Qed.
+
+Lemma clampd_range : forall alpha d, 0 < alpha -> 0 <= d -> 0 <= clampd alpha d /\ clampd alpha d <= alpha.
+Proof.
+  intros alpha d Ha Hd. unfold clampd. destruct (Qlt_bool alpha d) eqn:E.
+  - lra.
+  - apply Qlt_bool_false in E. lra.
+Qed.
+
+Lemma in_combine_map : forall (f : ent -> ent) es e r, In (e, r) (combine es (map f es)) -> r = f e.
+Proof.
+  induction es as [|a es IH]; cbn; intros e r H; [tauto|].
+  destruct H as [H|H]; [inversion H; reflexivity | auto].
+Qed.
+
+Lemma in_combine_self : forall (es : list ent) e r, In (e, r) (combine es es) -> r = e.
+Proof.
+  induction es as [|a es IH]; cbn; intros e r H; [tauto|].
+  destruct H as [H|H]; [inversion H; reflexivity | auto].
+Qed.
+
+(* The clamped kernel never reverses or overshoots the step, WHATEVER the bounds and whatever the
+   relation between u and the start (no premise: this also covers a u = fl(u0 + alpha du) perturbed
+   by rounding): every entry ends between u - alpha du and u. *)
+Lemma vector_clamped_along_step : forall alpha es e',
+  0 < alpha -> In e' (combine es (enforce_vector alpha es)) ->
+  between (e_u (fst e') - alpha * e_du (fst e')) (e_u (fst e')) (e_u (snd e')).
+Proof.
+  intros alpha es [e r] Ha Hin. cbn [fst snd]. unfold enforce_vector in Hin.
+  destruct (clampd_range alpha (vec_dalpha es) Ha (vd_nonneg es)) as [C0 C1].
+  set (d := clampd alpha (vec_dalpha es)) in *.
+  assert (K : between (e_u e - alpha * e_du e) (e_u e) (e_u e + (- d) * e_du e)).
+  { destruct (ratio_range alpha (alpha - d) Ha) as [R0 R1]; try lra.
+    apply (between_eq (e_u e - alpha * e_du e) (e_u e)
+             ((e_u e - alpha * e_du e) + ((alpha - d) / alpha) * (e_u e - (e_u e - alpha * e_du e))));
+      [reflexivity | reflexivity | field; lra | apply convex_between; auto]. }
+  destruct (Qlt_bool 0 d) eqn:D.
+  - apply in_combine_map in Hin. subst r. exact K.
+  - apply in_combine_self in Hin. subst r. apply Qlt_bool_false in D. assert (Dz : d == 0) by lra.
+    eapply between_eq; [reflexivity|reflexivity| |exact K]. rewrite Dz. ring.
+Qed.
+
+(* The kernel of the pinned commit does not have that property: an entry on its upper bound whose
+   tiny outward step was rounded up (u = 1 + 3/2 eps instead of 1 + eps) gives d_alpha = 3/2 > alpha
+   and moves the other entry, whose step is +8, backwards (from 0 to -4). *)
+Lemma vector_unclamped_refuted :
+  let es := [mkent 8 8 None (Some 100); mkent (2003#2000) (1#1000) None (Some 1)] in
+  exists a b, enforce_vector_cur 1 es = [a; b] /\ vec_dalpha es == 3#2 /\
+              e_u a == -4 /\ ~ between (8 - 1 * 8) 8 (e_u a).
+Proof.
+  cbn zeta. eexists; eexists. split; [vm_compute; reflexivity|].
+  split; [vm_compute; reflexivity|]. split; [vm_compute; reflexivity|].
+  unfold between. cbn [e_u]. intros [[A _]|[A _]]; vm_compute in A; apply A; reflexivity.
+Qed.
+
 Lemma vector_post : forall alpha t ps,
   0 < alpha -> 0 <= t -> t <= alpha -> Forall (good alpha) ps ->
   Forall2 (post alpha t) ps (enforce_vector alpha (map fst ps)).
 Proof.
   intros alpha t ps Ha H0 H1 G. unfold enforce_vector.
+  rewrite clampd_id by (apply (vector_dalpha_range alpha ps); auto).
   destruct (Qlt_bool 0 (vec_dalpha (map fst ps))) eqn:D.
   - apply Forall2_map_fst. intros p Hp. apply vector_ent_post; auto.
   - (* d_alpha = 0: nothing is changed, and that is what vector_ent with d = 0 computes *)
